@@ -34,6 +34,7 @@ mod engine_a;
 mod props_a;
 mod engine_b;
 mod props_b;
+mod engine_r;
 mod c17;
 mod c18;
 mod c16;
@@ -112,6 +113,7 @@ fn replay(path: &str) -> i32 {
   match v["engine"].as_str() {
     Some("A") => engine_a::replay_artefact(&v),
     Some("B") => props_b::replay_artefact(&v),
+    Some("R") => engine_r::replay_artefact(&v),
     Some("C13") => c13::replay_artefact(&v),
     Some("C14") => c14::replay_artefact(&v),
     Some("C15") => c15::replay_artefact(&v),
